@@ -73,7 +73,8 @@ REQUIRED_PROBES = {
               "secure_allowed_module_read", "flag_probe_read",
               "nonsecure_created_first", "env_shared_with_nonsecure",
               "detached_scope_calls", "secure_interpreter_created_late",
-              "precreated_child_scope", "repl_hosted_secure_session"],
+              "precreated_child_scope", "repl_hosted_secure_session",
+              "home_without_ckl_dir"],
 }
 REQUIRED_PROBES["thorough"] = REQUIRED_PROBES["quick"]
 
@@ -293,6 +294,16 @@ def native_ops(name, mode, base_names):
     return ops
 
 
+def spill_ops():
+    """a secure program writes a couple of MB through a string output
+    (nothing may reach the file system, not even a temporary file)"""
+    return [{"inst": "S", "src":
+             "def so_ = str_output(); def big_ = 'xxxxxxxx'; "
+             "for i_ in range(18) do big_ = big_ + big_; end; "
+             "print(big_, so_); length(get_output_string(so_))",
+             "tag": "spill"}]
+
+
 def flag_probe_ops(n):
     return [{"inst": "S", "src": f"require flagprobe{n}; "
              f"[flagprobe{n}->flag, flagprobe{n}->fe, flagprobe{n}->fd]",
@@ -337,6 +348,7 @@ def sweep_cases():
             cases.append(("flag", legacy, "env", ch))
         cases.append(("crawl", legacy, None, None))
         cases.append(("detached", legacy, None, None))
+        cases.append(("nohome", legacy, None, None))
     return cases
 
 
@@ -406,11 +418,20 @@ def build_sweep(spec):
             ops += os_native_ops(("", "fe_"))[:60]
             ops += flag_probe_ops(len([o for o in ops
                                        if o["tag"] == "flagprobe"]))
+    elif kind == "nohome":
+        ops.append({"inst": "S", "src": "require nosuchmod9",
+                    "tag": "usermod"})
+        ops.append({"inst": "S", "src": "require flagprobe1; 1",
+                    "tag": "usermod"})
+        ops += os_native_ops()[:30] + spill_ops() + flag_probe_ops(0)
+        return relocate({"config": cfg, "files": files, "ops": ops,
+                         "sweep": [kind, legacy, None]})
     elif kind == "detached":
         for i, atk in enumerate(detached_attacks()):
             ops += detached_ops(atk, f"DE{i}")
         ops += flag_probe_ops(0)
     elif kind == "crawl":
+        ops += spill_ops()
         ops.append({"inst": "S", "src": "require IO; require OS; require "
                     "Sys; require List; require String", "tag": "req"})
         ops.append({"inst": "S", "kind": "crawl", "src": "", "tag": "crawl"})
@@ -426,7 +447,25 @@ def gen_case(rng, tier, k):
     return gen_session(rng, tier)
 
 
+def relocate(case):
+    """variant of a case in which HOME has no ~/.ckl at all: the user
+    modules live in a directory named by checkerlang_module_path"""
+    case["config"]["home_missing"] = True
+    case["files"] = {k.replace(MOD_HOME, "/sim/mods"): v
+                     for k, v in case["files"].items()}
+    return case
+
+
 def gen_session(rng, tier):
+    case = _gen_session(rng, tier)
+    if rng.random() < 0.3:
+        relocate(case)
+        case["ops"].insert(0, {"inst": "S", "src": "require nosuchmod9",
+                               "tag": "usermod"})
+    return case
+
+
+def _gen_session(rng, tier):
     d = discover()
     legacy = rng.random() < 0.4
     cfg = {"legacy": legacy, "nonsecure": True, "prng": round(rng.random(),
@@ -689,7 +728,13 @@ def run_case(case, root):
         w.programs["/sim/bin/tool"] = (0, "out\n")
         for vpath, entry in sorted(case.get("files", {}).items()):
             w.put_file(vpath, entry["text"])
+        home_missing = cfg.get("home_missing")
+        if not home_missing:
+            w.put_dir(MOD_HOME)
+        else:
+            probes["home_without_ckl_dir"] = 1
         before = w.snapshot(CAN)
+        home_before = w.snapshot("/sim/home")
         N = None
         if cfg.get("nonsecure") and cfg.get("n_first"):
             # the non-secure neighbour exists (and has bound its natives)
@@ -700,7 +745,8 @@ def run_case(case, root):
         stuck = []
         if cfg.get("host") == "repl":
             from ..replhost import ReplHost
-            host = ReplHost(sim, "S", True, cfg["legacy"], None)
+            host = ReplHost(sim, "S", True, cfg["legacy"],
+                            "/sim/mods" if cfg.get("home_missing") else None)
             w.actor = "S"
             w.sut_running = True
             try:
@@ -717,6 +763,13 @@ def run_case(case, root):
         if cfg.get("nonsecure") and N is None:
             N = sim.new_interpreter("N", False, cfg.get("n_legacy", True))
         moddirs = [MOD_HOME]
+        if home_missing:
+            from ckl.values import ValueList, ValueString
+            moddirs.append("/sim/mods")
+            for itx in list(sim.inst.values()):
+                lst = ValueList()
+                lst.addItem(ValueString("/sim/mods"))
+                itx.base_environment.put("checkerlang_module_path", lst)
         envs = {}
         used_by = {}
         nsecure_ops = 0
@@ -725,7 +778,14 @@ def run_case(case, root):
             inst = op.get("inst", "S")
             if op.get("kind") == "spawn":
                 if inst not in sim.inst:
-                    sim.new_interpreter(inst, True, op.get("legacy", False))
+                    itn = sim.new_interpreter(inst, True,
+                                              op.get("legacy", False))
+                    if home_missing:
+                        from ckl.values import ValueList, ValueString
+                        lst = ValueList()
+                        lst.addItem(ValueString("/sim/mods"))
+                        itn.base_environment.put("checkerlang_module_path",
+                                                 lst)
                     probes["secure_interpreter_created_late"] = 1
                 continue
             if inst == "N" and N is None:
@@ -879,6 +939,11 @@ def run_case(case, root):
                         V("no-os-effect", "effect:run-defined",
                           f"`run` is callable in the secure interpreter and "
                           f"touched the OS: {e[2:]}")
+        if w.snapshot("/sim/home") != home_before and not viol and \
+                not cfg.get("nonsecure"):
+            V("no-os-effect", "home-changed",
+              f"the HOME tree changed: {home_before} -> "
+              f"{w.snapshot('/sim/home')}")
         after = w.snapshot(CAN)
         if before != after and not viol:
             # was it the neighbour? it never writes below the canary
